@@ -17,6 +17,7 @@
 #include <semaphore.h>
 #include <sys/stat.h>
 #include <unistd.h>
+#include <ctime>
 #include <algorithm>
 extern "C" {
 #include "qlibc.h"
@@ -363,9 +364,26 @@ struct LogC : Cont {
     const char *kind() { return "qlog"; }
     bool create(bool ts) { std::string p = g_tmpdir + "/vf.log"; l = qlog(p.c_str(), 0644, 0, ts ? QLOG_OPT_THREADSAFE : 0); return l != nullptr; }
     void *mutex() { return l ? l->qmutex : nullptr; }
-    std::vector<const char *> ops() { return {"write", "writef", "duplicate", "flush"}; }
+    std::vector<const char *> ops() { return {"write", "writef", "duplicate", "flush", "write(rotation due, new file cannot be opened)", "write(rotation due, new file opens)"}; }
     int nmutators() { return 2; }
-    Res run(int op, const Args &a) { Res r; switch (op) { case 0: r.failed = !l->write(l, a.val.c_str()); break; case 1: r.failed = !l->writef(l, "%s %ld", a.val.c_str(), a.num); break; case 2: r.failed = !l->duplicate(l, a.sub & 1 ? g_devnull : nullptr, a.newmem); break; default: l->flush(l); } return r; }
+    Res run(int op, const Args &a) {
+        Res r;
+        switch (op) {
+            case 0: r.failed = !l->write(l, a.val.c_str()); break;
+            case 1: r.failed = !l->writef(l, "%s %ld", a.val.c_str(), a.num); break;
+            case 2: r.failed = !l->duplicate(l, a.sub & 1 ? g_devnull : nullptr, a.newmem); break;
+            case 3: l->flush(l); break;
+            default: {
+                // a rotation is due (as after rotateinterval seconds) and the name pattern now yields another path:
+                // one that cannot be opened (log directory gone) or one that can
+                l->rotateinterval = 3600; l->nextrotate = 1;
+                std::string p = op == 4 ? std::string("/nonexistent-vf-dir/rot-%Y.log") : g_tmpdir + "/vf-rot-%Y.log";
+                snprintf(l->filepathfmt, sizeof l->filepathfmt, "%s", p.c_str());
+                r.failed = !l->write(l, a.val.c_str());
+            }
+        }
+        return r;
+    }
     std::string snapshot() { return ""; }
     const char *invariant() { return nullptr; }
     void destroy() { if (l) l->free(l); l = nullptr; }
@@ -425,7 +443,8 @@ bool vf_configure(Ctx &c) {
     g_tmpdir = std::string(td ? td : "/dev/shm") + "/vf-fault-" + std::to_string(getpid());
     mkdir(g_tmpdir.c_str(), 0700);
     { FILE *f = fopen((g_tmpdir + "/load.txt").c_str(), "w"); if (f) { fputs("# saved\nk1=v%201\nk2=\nkey=abc\n", f); fclose(f); } }
-    atexit([] { for (const char *f : {"/load.txt", "/save.txt", "/vf.log"}) unlink((g_tmpdir + f).c_str()); rmdir(g_tmpdir.c_str()); });
+    atexit([] { for (const char *f : {"/load.txt", "/save.txt", "/vf.log"}) unlink((g_tmpdir + f).c_str());
+    { time_t now = time(nullptr); char nm[64]; strftime(nm, sizeof nm, "/vf-rot-%Y.log", localtime(&now)); unlink((g_tmpdir + nm).c_str()); } rmdir(g_tmpdir.c_str()); });
     return true;
 }
 
